@@ -44,7 +44,7 @@ def same(a, b, c):
     return all_close(fa, fb, c) if fa else True
 
 
-def stochast_unit(spec, exact, K, witness=False):
+def stochast_unit(spec, exact, K, witness=False, fixed_tau=False):
     from pygom.model import simulate as simmod
     from pygom.model import stochastic_simulation as ss
     S, E = len(spec.states), len(spec.events)
@@ -62,6 +62,11 @@ def stochast_unit(spec, exact, K, witness=False):
         if c.mode == "sym":
             m._x0 = x0
         m.pre_tau = None
+        ptau = None
+        if fixed_tau:
+            # the user's fixed leap size (a setting of the model object: a run must leave it alone)
+            ptau = c.real("pre_tau", lo=0, lo_strict=True)
+            m.pre_tau = ptau
         m._state_lims = [(0, None)] * S
         real_fr, real_tl = ss.firstReaction, ss.tauLeap
         FreshEntropy.count = 0
@@ -108,6 +113,8 @@ def stochast_unit(spec, exact, K, witness=False):
         A = run("g")
         B = run("g")
         c.reachable("two runs completed")
+        if fixed_tau:
+            c.prove(m.pre_tau is not None and close(m.pre_tau, ptau, c), "the fixed leap size set on the model is still in force after the runs")
         c.prove(same(A, B, c), "same seed (same global stream) => identical states, counts and times")
         c.prove(len(A[0]) == 2, "one path per iteration")
         # every iteration is a fresh walk of the same model: it starts at the initial state and time (nothing carried
@@ -123,7 +130,7 @@ def stochast_unit(spec, exact, K, witness=False):
             if len(fa) == len(fc) and len(fa) > 2:
                 c.witness(disj([~(a == b) if isinstance(a == b, SymBool) else (a != b) for a, b in zip(fa, fc)]),
                           "a different stream can change the output")
-    return Unit("C16.stochast[%s,exact=%s,K=%d]" % (spec.name, exact, K), h,
+    return Unit("C16.stochast[%s,exact=%s,K=%d%s]" % (spec.name, exact, K, ",fixed_tau" if fixed_tau else ""), h,
                 bounds={"states": S, "events": E, "iterations": 2, "unwind_steps_total": K, "x0": "integers 0..4"},
                 program=spec.describe(), max_paths=8000)
 
@@ -246,6 +253,7 @@ class C16(Check):
         us = [stochast_unit(specs["shape_1x2"], True, 2, witness=True),
               stochast_unit(specs["shape_2x2"], True, 3),
               stochast_unit(specs["shape_1x2"], False, 2),
+              stochast_unit(specs["shape_1x2"], False, 2, fixed_tau=True),
               param_unit("tuple", "solve_determ"), param_unit("frozen", "solve_determ"),
               param_unit("tuple_kwargs", "simulate_param"), param_unit("frozen", "simulate_param"),
               param_unit("frozen_then_constant", "solve_determ"),
